@@ -12,7 +12,8 @@ MANIFEST = {
             "dft∘idft = id for every length n>=1, Parseval sum|X|^2 = n*sum|x|^2, ifftshift∘fftshift = id = fftshift∘ifftshift "
             "for every length (odd included) so the opposite shift recovers the unshifted transform, x(domain,shift) acts "
             "row-wise and alike on signal and noise, the w() axis is 2*pi*k*fs/n for the signed fftfreq index and its fftshift "
-            "is ascending, power = mean |signal+noise|^2.  Tie: the same Lean definitions run at Float against "
+            "is ascending, power = mean |signal+noise|^2; the transform is additive (signal+noise transforms to the sum of the "
+            "transforms, shift included) and maps an unlit row to exact zeros with power exactly 0.  Tie: the same Lean definitions run at Float against "
             "x('w'|'f'|'t', shift), x.w(shift), x.power() of the real code (tolerance 1e-9 relative to the row's magnitude).",
     "note": "numpy.fft.fft/ifft are modelled as the DFT by definition (trusted to compute it); proofs are over R/C and say nothing "
             "about rounding; Float correspondence tolerance 1e-9*scale*n. Axioms: propext, Classical.choice, Quot.sound.",
